@@ -46,6 +46,10 @@ pub struct SchedSpec {
     /// "this resource is slow in this run"
     #[serde(default)]
     pub stall_target: String,
+    /// who stalls: 0 every task, 1 every task but the server's main loop (background tasks are
+    /// slow, the main loop overtakes them), 2 only the main loop (background tasks overtake it)
+    #[serde(default)]
+    pub stall_who: u32,
 }
 
 fn default_event_interval() -> u32 {
@@ -386,9 +390,15 @@ impl Controller for SimController {
         d as usize
     }
 
-    fn pre_acquire_yields(&mut self, _kind: AcqKind, _task: u64, ty: &'static str) -> u32 {
+    fn pre_acquire_yields(&mut self, _kind: AcqKind, task_raw: u64, ty: &'static str) -> u32 {
         let mut s = self.0.borrow_mut();
-        let stall_here = s.spec.stall_target.is_empty() || ty.contains(s.spec.stall_target.as_str());
+        let is_main = task_raw == s.main_task_raw;
+        let who_ok = match s.spec.stall_who {
+            1 => !is_main,
+            2 => is_main,
+            _ => true,
+        };
+        let stall_here = who_ok && (s.spec.stall_target.is_empty() || ty.contains(s.spec.stall_target.as_str()));
         let pm = s.spec.yield_permille;
         let maxy = s.spec.max_yields.max(1);
         let (spm, slen) = (s.spec.stall_permille, s.spec.stall_len.max(2));
